@@ -105,6 +105,8 @@ specs = {
          "generate failing in the callback, on a weak key, on an inadmissible callback choice, from every prior error state: NULL <=> flag, flag => message, token => clean", False),
         ("builder-routes", S.builder_routes_suite, S.falsify_builder_routes,
          "unusable keys/algorithms on the builder (inadmissible pairs, JWT_ALG_INVAL, weak or cross-family keys, public keys) through setkey and callback routes: NULL <=> flag with message", True),
+        ("long-inputs", S.long_inputs_suite, S.falsify_long_inputs,
+         "alg header names of 1-20, 180-300, 400, 511-513, 767/768, 1000-1025, 4096, 20000 characters (bare and appended to none/HS256/RS256) on an unkeyed and a keyed checker; JWKs whose kty/crv/kid/alg member has those lengths; contract flag <=> rc, flag => message on every answer", False),
         ("setget-codes", S.setget_suite, S.falsify_setget, "return code of every header/claim set/get/del equals the code stored in the value (executor prints both) and the typed-map answer", False),
     ])'''),
  "c19": dict(doc="C19 -- a verification callback cannot bend the verdict.",
@@ -112,6 +114,8 @@ specs = {
    level="Lean theorems for every callback function: returning 0 with key/alg untouched leaves the whole outcome unchanged whatever it did to the token object; non-zero return always fails; selected (alg,key) passes the setkey table. Tied to the code by scripted callback programs (set/replace/delete/delete-all of claims and headers, whole-object JSON merge, reads) x claim-check configurations x passing/failing tokens, with vs without the callback on the real library.",
    assume=[],
    body='''    F.run_suites(ctx, model_ok, deep, [
+        ("callback-admission", S.callback_admission_suite, S.falsify_accept,
+         "per key x alg attribute (absent, two admissible) x algorithm left by the callback (none, four of the family, one foreign) x style (writes alg only and keeps the key setkey installed / re-installs the same item / reads the configuration first) x header alg in {attribute, callback alg, admissible}: validly signed token accepted exactly when the documented setkey table admits (alg, key) and the pinned algorithm is the header's", False),
         ("callbacks", S.callbacks_suite, S.falsify_callbacks,
          "21 single steps + 120 (quick) / all 441 (thorough) two-step programs x 5 claim-check configurations x 9 payloads x signed/unsigned x return 0/3; reference = same checker without callback", False),
         ("alg-matrix-sample", 120 if not (ctx.tier == "thorough" or deep) else None, S.falsify_accept,
@@ -153,6 +157,8 @@ specs = {
    level="Lean theorems for every JSON value and every key-material oracle: set error and no items for non-JSON, exactly one item without a keys member, exactly n items in document order for a keys array, none for a non-array keys; every item is flagged with a message or is a usable key (known kty, PEM or non-empty oct bytes), by case analysis over the member handling of all four key types with Option-tracked json_string_value; preserved by every load. Memory safety/UB/leaks of the compiled code are witnessed by ASan/UBSan/LSan runs: every member x 9 JSON types/absent/truncated/extended/flipped for every key type, non-JWK documents, keys of every type, 0-50 elements, mutated text, all five entry points incl. embedded NUL.",
    assume=["PARTIAL: memory safety, UB and leaks of compiled libjwt/jansson/OpenSSL on these inputs are witnessed by sanitizers, not proved", "EVP_PKEY_fromdata / PEM export acceptance of key material is a parameter (KeyOracle), answered in the harness by an independent OpenSSL caller"],
    body='''    F.run_suites(ctx, model_ok, deep, [
+        ("long-inputs", S.long_inputs_suite, S.falsify_long_inputs,
+         "alg header names of 1-20, 180-300, 400, 511-513, 767/768, 1000-1025, 4096, 20000 characters (bare and appended to none/HS256/RS256) on an unkeyed and a keyed checker; JWKs whose kty/crv/kid/alg member has those lengths; contract flag <=> rc, flag => message on every answer", False),
         ("jwk-shapes", S.jwk_shapes_suite, S.falsify_jwk_shapes,
          "per key type (oct, RSA, P-256, Ed25519; more in thorough) private and public: each member absent / null / int / real / bool / array / object / empty / non-base64 / 1 char / truncated / extended / first char flipped (+ random pairs in thorough); 30 non-JWK documents; keys of 11 types and 0-50 elements; 300 (quick) / 3000 (thorough) byte-mutated texts; entry points load/strn/create/fromfile/fromfp with good, bad, NUL-containing and set input", False),
     ])'''),
